@@ -667,6 +667,7 @@ class SetBodyReader(Contract):
         out += [("chunked=>HTTP/1.1+", Implies(is_ch, c.ex.compare(__import__("ast").GtE(), ver, STuple([SInt(1), SInt(1)]), c.st))),
                 ("chunked=>no-Content-Length", Implies(is_ch, no_cl)),
                 ("chunked=>Transfer-Encoding-present", Implies(is_ch, Not(no_te))),
+                ("chunked=>some-Transfer-Encoding-value-contains-the-word-chunked", Implies(is_ch, te_names_chunked(seq, seq.hi))),
                 ("length>=0", Implies(is_len, n >= 0)),
                 ("length=>exactly-one-Content-Length-with-that-value",
                  Implies(is_len, z3.Exists([i], And(inr(i), is_cl(i),
@@ -682,9 +683,11 @@ class SetBodyReader(Contract):
     loops = {0: dict(anchor="for (name, value) in self.headers", cands=[
         ("cl-none-iff-no-CL-so-far", lambda L: _cl_inv(L)),
         ("chunked=>TE-seen", lambda L: Implies(L.ex.truth(L.chunked, L.st), _seen(L, "TRANSFER-ENCODING"))),
+        ("chunked=>TE-value-says-chunked", lambda L: Implies(L.ex.truth(L.chunked, L.st), te_names_chunked(_hseq(L), _hseq(L).lo + L.loop_index))),
         ("body-unset", lambda L: isinstance(L.st.obj(L.self).fields["body"], SNone)),
     ]), 1: dict(anchor="for val in vals", cands=[
         ("chunked=>TE-seen(inner)", lambda L: L.ex.truth(L.chunked, L.st) == L.ex.truth(L.chunked, L.st)),
+        ("chunked=>element-says-chunked(inner)", lambda L: _te_inner_inv(L)),
     ])}
 
 
@@ -699,6 +702,37 @@ class ReaderChoiceModel(ClassModel):
 
 READER_CHOICE = ReaderChoiceModel()
 inline("gunicorn.http.message:Request.set_body_reader")
+
+
+CHUNKED = b"chunked"
+
+
+def _lower(ch):
+    return If(And(ch >= 65, ch <= 90), ch + 32, ch)
+
+
+def chunked_at(a):
+    """the seven bytes of the stream at a spell 'chunked' case-insensitively"""
+    return And(*[_lower(Tsel(a + k)) == CHUNKED[k] for k in range(7)])
+
+
+def te_names_chunked(seq, upto):
+    """some Transfer-Encoding header among the first `upto` entries has the word 'chunked' inside its value"""
+    j, a = qvar("j"), qvar("a")
+    vw = lambda k: seq.elem(k).items[1].single_win()
+    return z3.Exists([j, a], And(seq.lo <= j, j < upto, name_is(seq, j, "TRANSFER-ENCODING"), vw(j).lo <= a, a + 7 <= vw(j).hi, chunked_at(a)))
+
+
+def _te_inner_inv(L):
+    """inner loop over the elements of ONE Transfer-Encoding value: chunked now => it was already set, or one of the
+    elements seen so far is the word 'chunked' inside this header's value"""
+    vals = L.ex.sym_seq(L.entry, L.iter)
+    val_w = L.fentry_value_window if False else None
+    k, = (qvar("k"),)
+    value = L.st.locals["value"].single_win()
+    w = lambda x: vals.elem(x).single_win()
+    here = z3.Exists([k], And(vals.lo <= k, k < vals.lo + L.loop_index, value.lo <= w(k).lo, w(k).lo + 7 <= value.hi, chunked_at(w(k).lo)))
+    return Implies(L.ex.truth(L.chunked, L.st), Or(L.ex.truth(L.entry.locals["chunked"], L.entry), here))
 
 
 def _any_body(*a):
